@@ -22,8 +22,8 @@ pub fn prop() -> Prop {
             "patterns use each colour type's canonical characters",
         ],
         subs: vec![
-            Sub::tape("histories", 120, 100_000, 5_000_000, histories),
-            Sub::tape("patterns", 140, 50_000, 2_500_000, patterns),
+            Sub::tape("histories", 500, 100_000, 5_000_000, histories),
+            Sub::tape("patterns", 200, 50_000, 2_500_000, patterns),
         ],
     }
 }
